@@ -134,6 +134,17 @@ class Ctx:
     def local(self, name):
         return self.locals[name]
 
+    def post_arg(self, name):
+        """value of a by-reference (container) argument after the call"""
+        post = self.args.get("$post")
+        if post is not None and post.get(name) is not None:
+            return post[name]
+        return self.args[name]
+
+    def pre_arg(self, name):
+        pre = self.__dict__.get("pre_args")
+        return pre[name] if pre is not None else self.args[name]
+
     def get(self, ref, field):
         return self.path.heap_get(self.ex, ref, field, self._view)
 
